@@ -2,6 +2,9 @@ package op
 
 import (
 	"fmt"
+	"maps"
+	"slices"
+	"strings"
 
 	"github.com/berquerant/crd/errorx"
 	"github.com/berquerant/crd/logx"
@@ -138,14 +141,14 @@ func NewScale(key Key) (*Scale, error) {
 	return result, nil
 }
 
+// AllScales returns all scales ordered by key.
 func AllScales() []*Scale {
-	var (
-		i      int
-		scales = make([]*Scale, len(keySignatures))
-	)
-	for k := range keySignatures {
+	keys := slices.SortedFunc(maps.Keys(keySignatures), func(a, b Key) int {
+		return strings.Compare(a.String(), b.String())
+	})
+	scales := make([]*Scale, len(keys))
+	for i, k := range keys {
 		scales[i], _ = NewScale(k)
-		i++
 	}
 	return scales
 }
